@@ -294,7 +294,7 @@ cos = _elementwise(S.s_cos, _np.cos, 'cos')
 tan = _elementwise(S.s_tan, _np.tan, 'tan')
 exp = _elementwise(S.s_exp, _np.exp, 'exp')
 log = _elementwise(lambda x: S.s_fun('log', x), _np.log, 'log')
-arccos = _elementwise(lambda x: S.s_fun('arccos', x), _np.arccos, 'arccos')
+arccos = _elementwise(S.s_arccos, _np.arccos, 'arccos')
 arcsin = _elementwise(lambda x: S.s_fun('arcsin', x), _np.arcsin, 'arcsin')
 arctan = _elementwise(lambda x: S.s_fun('arctan', x), _np.arctan, 'arctan')
 abs = _elementwise(S.s_abs, _np.abs, 'abs')
